@@ -557,7 +557,8 @@ PROPS['C08']['explanation'] = PROPS['C08']['explanation'] + (
     "Conc/Sections.lean; held_log / shared_log / section_uninterrupted are proved for every checked program and every schedule, and "
     "C08_send_section_uninterrupted instantiates them on the regenerated graph: from any reachable state in which a goroutine is inside its "
     "send section, and until it leaves it, every use of the connection in the log is that goroutine's own.")
-PROPS['C16']['theorems'] = PROPS['C16']['theorems'] + ['FV.Tie.wire_calls_only_in_methods', 'FV.Lk.held_log', 'FV.Lk.section_uninterrupted1', 'FV.Tie.C16_writes_under_writeLock',
+PROPS['C15']['theorems'] = PROPS['C15']['theorems'] + ['FV.Tie.close_gate_sites', 'FV.Tie.connState_no_plain_store']
+PROPS['C16']['theorems'] = PROPS['C16']['theorems'] + ['FV.Tie.listen_gate_sites', 'FV.Tie.connState_no_plain_store', 'FV.Tie.wire_calls_only_in_methods', 'FV.Lk.held_log', 'FV.Lk.section_uninterrupted1', 'FV.Tie.C16_writes_under_writeLock',
                                                        'FV.Tie.C16_write_section_uninterrupted']
 PROPS['C16']['explanation'] = PROPS['C16']['explanation'] + (
     " C16_write_section_uninterrupted: in the execution log of every schedule, while a goroutine holds writeLock every frame-writing call "
